@@ -1,21 +1,53 @@
 /-
   C03 — server responses are decoded by the client into the data the backend supplied.
 
-  Proved here (about the mirrors in Model/RespWire.lean and Model/RespGrammar.lean):
-    * quoted_fidelity            Decoder.Quoted ∘ Encoder.Quoted = id on every byte string, whatever follows
-    * binsize_repaired / binsize_legacy_counterexample
-                                 `BINARY.SIZE[1] 42` is read after the repair, was a parse error before (F12)
-    * inbox_case_repaired / inbox_case_legacy_counterexample
-                                 STATUS/SELECT data for "inbox" is attributed after the repair, was dropped before
+  `resp_fidelity` (DESIGN §5.3) is proved family by family about the mirrors in Model/RespWire.lean and
+  Model/RespGrammar.lean, against the specification in Spec/RespGrammar.lean (`canon…`, `wf…`):
+  the bytes the server writers produce for a well-formed value, followed by the tagged completion,
+  are parsed by the client's reader and routed to the waiting command as exactly `canon value`.
 
-  Validated by the oracle only (Spec/RespGrammar.lean evaluated on what the real client delivered) and by
-  the byte-for-byte / delivery correspondence of the model with the real server and client: everything
-  else of `resp_fidelity` (see the header of this file as it grows).
+  Proved (every theorem below; hypotheses are the writer API's documented domain + Go's integer widths):
+    wire primitives    quoted_fidelity, literal_fidelity (payload byte-identical, any bytes), string_fidelity,
+                       nstring_fidelity, mailbox_fidelity (UTF-7/UTF-8, INBOX canonical), flag_fidelity,
+                       flag_list_fidelity, attr_list_fidelity, delimiter_fidelity, internaldate_fidelity
+    FETCH              fetch_item_fidelity (UID, FLAGS, INTERNALDATE, RFC822.SIZE, BODY[…] sections with header
+                       lists and partial offsets, BINARY[…], BINARY.SIZE[…]; literals byte-identical),
+                       resp_fidelity_fetch (whole command: messages and items in the order sent)
+    LIST               list_line_fidelity, resp_fidelity_list (without RETURN (STATUS)); list_status_routing
+                       (pairing of LIST and STATUS events)
+    STATUS             resp_fidelity_status (all item subsets, APPENDLIMIT NIL)
+    SELECT             resp_fidelity_select
+    SEARCH / ESEARCH   resp_fidelity_search (SEARCH form: same members), resp_fidelity_esearch
+    APPENDUID/COPYUID  resp_fidelity_append_some/_none, resp_fidelity_copy_some/_none, resp_fidelity_move_some/_none
+    NAMESPACE          resp_fidelity_namespace
+    EXPUNGE            resp_fidelity_expunge
+    repaired defects   binsize_repaired / binsize_legacy_counterexample (F12),
+                       inbox_case_repaired / inbox_case_legacy_counterexample (F29)
+
+  Partial: COPYUID and ESEARCH are proved for number sets in canonical form (what `imap.UIDSet.AddNum/AddRange`
+  build); for arbitrary range lists the oracle checks membership on every run.
+
+  Missing (validated by the byte-for-byte / delivery correspondence of Model/RespBody.lean and by the oracle only):
+    ENVELOPE and BODY/BODYSTRUCTURE round trips; LIST with RETURN (STATUS) as one end-to-end statement (its
+    three ingredients list_line_fidelity, status line, list_status_routing are proved); CAPABILITY.
 -/
+import GoImap.Lemmas.RespAssemble
 import GoImap.Lemmas.RespLines
+import GoImap.Lemmas.RespFlags
+import GoImap.Lemmas.RespMailbox
+import GoImap.Lemmas.RespDate
+import GoImap.Lemmas.RespCodes
+import GoImap.Lemmas.RespSearch
+import GoImap.Lemmas.RespNamespace
+import GoImap.Lemmas.RespStatus
+import GoImap.Lemmas.RespList
+import GoImap.Lemmas.RespFetch
+import GoImap.Lemmas.RespSelect
 import GoImap.Spec.RespGrammar
 namespace GoImap.C03
 open GoImap.Resp
+
+/-! ## wire primitives -/
 
 /-- a quoted string written by the server is read back unchanged by the client, for every byte string
     (quotes, backslashes, CR, LF and 8-bit bytes included) and whatever follows it on the line -/
@@ -25,20 +57,242 @@ theorem quoted_fidelity (s rest : Str) : decQuoted (encQuoted s ++ rest) = some 
 example : decQuoted (encQuoted [34, 92, 13, 10, 255] ++ [32, 41]) = some ([34, 92, 13, 10, 255], [32, 41]) :=
   quoted_fidelity _ _
 
-/-- after the repair the client reads `BINARY.SIZE[1] 42` -/
-theorem binsize_repaired :
-    (readItem (asc "BINARY.SIZE[1] 42)")).map (fun x => x.2) = some [41] := by
-  decide
+/-- a literal is delivered byte for byte, whatever its content (the length fits an int64) -/
+theorem literal_fidelity (s rest : Str) (hs : s.length < 9223372036854775808) :
+    decLiteral (encLiteral s ++ rest) = some (s, rest) :=
+  decLiteral_encLiteral s rest hs
 
-/-- before the repair the BINARY.SIZE branch met the opening bracket where it expected a number or `]` -/
-theorem binsize_legacy_counterexample :
-    (Legacy.readBinarySize (asc "[1] 42)")).map (fun x => x.2) = none := by
-  decide
+/-- Encoder.String (quoted or literal, with or without UTF-8 quoting) against Decoder.String -/
+theorem string_fidelity (utf8 : Bool) (s rest : Str) (hs : s.length < 9223372036854775808) :
+    decString (encString utf8 s ++ rest) = some (s, rest) :=
+  decString_encString utf8 s rest hs
 
-theorem inbox_case_repaired : sameMailbox (asc "inbox") (asc "INBOX") = true := by decide
+/-- writeNString against ExpectNString: the empty string travels as NIL and comes back empty -/
+theorem nstring_fidelity (utf8 : Bool) (s rest : Str) (hs : s.length < 9223372036854775808) (hr : StopsAt isAtomChar rest) :
+    decNString (encNString utf8 s ++ rest) = some (s, rest) :=
+  decNString_encNString utf8 s rest hs hr
 
-/-- before the repair `Status("inbox")` / `Select("inbox")` did not recognise the server's answer about INBOX -/
-theorem inbox_case_legacy_counterexample : Legacy.sameMailbox (asc "inbox") (asc "INBOX") = false := by decide
+/-- a mailbox name (valid UTF-8; modified UTF-7 on the wire) is delivered unchanged, INBOX in its canonical spelling -/
+theorem mailbox_fidelity (utf8 : Bool) (name mb rest : Str) (h : encMailbox utf8 name = some mb)
+    (hlen : name.length < 4294967296) (hr : StopsAt isAtomChar rest) :
+    decMailbox (mb ++ rest) = some (RespSpec.canonMailbox name, rest) :=
+  decMailbox_encMailbox utf8 name mb rest h hlen hr
+
+example : ∃ mb, encMailbox false [69, 110, 116, 119, 195, 188, 114, 102, 101] = some mb := ⟨_, rfl⟩
+
+theorem flag_fidelity (perm : Bool) (f rest : Str) (h : RespSpec.validFlag perm f = true) (hr : StopsAt isAtomChar rest) :
+    encFlag f = some f ∧ decFlag (f ++ rest) = some (RespSpec.canonFlag f, rest) :=
+  ⟨encFlag_valid perm f h, decFlag_valid perm f rest h hr⟩
+
+theorem flag_list_fidelity (perm : Bool) (l : List Str) (h : ∀ f ∈ l, RespSpec.validFlag perm f = true) (rest : Str) :
+    ∃ t, flagListText l = some t ∧ decList decFlag (t ++ rest) = some (l.map RespSpec.canonFlag, rest) :=
+  flagList_fidelity perm l h rest
+
+theorem attr_list_fidelity (l : List Str) (h : ∀ f ∈ l, RespSpec.validAttr f = true) (rest : Str) :
+    optAll (l.map encAttr) = some l ∧ decList decAttr (encList l ++ rest) = some (l.map RespSpec.canonAttr, rest) :=
+  attrList_fidelity l h rest
+
+theorem delimiter_fidelity (d : Int) (rest : Str) (h : RespSpec.validDelim d = true) (hr : StopsAt isAtomChar rest) :
+    ∃ dl, delimText d = some dl ∧ readDelim (dl ++ rest) = some (d, rest) :=
+  readDelim_delimText d rest h hr
+
+/-- INTERNALDATE text: the time is read back with whole seconds, same instant, same zone -/
+theorem internaldate_fidelity (t : DateTime) (h : DateOK t) : parseDateTime (dateTimeText t) = some (RespSpec.canonTime t) :=
+  parseDateTime_dateTimeText t h
+
+/-! ## FETCH -/
+
+/-- one message data item (UID, FLAGS, INTERNALDATE, RFC822.SIZE, BODY[section], BINARY[part],
+    BINARY.SIZE[part]) is read back as its canonical value; section literals are byte-identical -/
+theorem fetch_item_fidelity (utf8 : Bool) (reqExt : Option Bool) (it : Item) (t : Str)
+    (hwf : RespSpec.wfItem reqExt it = true) (hp : printItem utf8 it = some t) (hb : fetch_Bounded it)
+    (r : Str) (hr : ItemEnd r) : readItem (t ++ r) = some (RespSpec.canonItem it, r) :=
+  Resp.fetch_item_fidelity utf8 reqExt it t hwf hp hb r hr
+
+/-- FETCH / UID FETCH: the messages the backend wrote through `FetchWriter.CreateMessage … Close` are
+    delivered to the command in the order sent, each with its items in the order sent, every item
+    canonical (flags case-normalised, times in whole seconds, sections without PEEK / requested length),
+    literals byte for byte. `fetchKey` is the message number (FETCH) or the UID seen before the first
+    literal (UID FETCH): the client hands a message to the command once per key. -/
+theorem resp_fidelity_fetch (cfg : Cfg) (uidMode : Bool) (reqExt : Option Bool) (ms : List Msg) (bytes tag text : Str)
+    (ht : IsTag tag) (hx : IsText text)
+    (hseq : ∀ m ∈ ms, m.seq < 4294967296)
+    (hwf : ∀ m ∈ ms, ∀ it ∈ m.items, RespSpec.wfItem reqExt it = true) (hb : ∀ m ∈ ms, ∀ it ∈ m.items, fetch_Bounded it)
+    (hkey : ∀ m ∈ RespSpec.canonMsgs ms, fetchKey uidMode m ≠ 0) (hnd : ((RespSpec.canonMsgs ms).map (fetchKey uidMode)).Nodup)
+    (hp : printFetch cfg ms = some bytes) :
+    (parseAll (bytes ++ (tag ++ asc " OK " ++ text ++ CRLFb))).map (deliverFetch uidMode) = some (RespSpec.canonMsgs ms) := by
+  obtain ⟨lines, hflat, hall⟩ := fetch_lines cfg reqExt ms bytes hseq hwf hb hp
+  have hlines := AllRead.append hall (AllRead.single (done_line tag text ht hx))
+  have e : bytes ++ (tag ++ asc " OK " ++ text ++ CRLFb) = (lines ++ [tag ++ asc " OK " ++ text ++ CRLFb]).flatten := by
+    simp [hflat]
+  rw [e, parseAll_lines _ _ hlines]
+  simp only [Option.map_some]
+  congr 1
+  have hm : (ms.map fun m => Event.fetch { seq := m.seq, items := m.items.map RespSpec.canonItem }) =
+      (RespSpec.canonMsgs ms).map Event.fetch := by
+    simp [RespSpec.canonMsgs, List.map_map, Function.comp_def]
+  rw [hm]
+  exact deliverFetchAux_distinct uidMode tag (asc "OK") Code.none (RespSpec.canonMsgs ms) []
+    (fun m hm => ⟨hkey m hm, by simp⟩) hnd
+
+/-! ## LIST -/
+
+/-- one `* LIST …` line (attributes, delimiter, mailbox, CHILDINFO, OLDNAME) is read as the canonical entry -/
+theorem list_line_fidelity (utf8 : Bool) (d : ListData) (bytes : Str)
+    (hwf : RespSpec.wfList none d = true) (hlen : d.mailbox.length < 4294967296 ∧ d.oldName.length < 4294967296)
+    (hp : printListLine utf8 d = some bytes) :
+    ReadsAs bytes (Event.list (RespSpec.canonList none d)) :=
+  list_line utf8 d bytes hwf hlen hp
+
+/-- LIST without RETURN (STATUS): the entries written through `ListWriter.WriteList` are what
+    `ListCommand.Collect` returns, in order -/
+theorem resp_fidelity_list (cfg : Cfg) (ds : List ListData) (bytes tag text : Str) (ht : IsTag tag) (hx : IsText text)
+    (hwf : ∀ d ∈ ds, RespSpec.wfList none d = true)
+    (hlen : ∀ d ∈ ds, d.mailbox.length < 4294967296 ∧ d.oldName.length < 4294967296)
+    (hp : printList cfg none ds = some bytes) :
+    (parseAll (bytes ++ (tag ++ asc " OK " ++ text ++ CRLFb))).map (deliverList false none) =
+      some (ds.map (RespSpec.canonList none)) := by
+  unfold printList at hp
+  obtain ⟨ls, hl, hget, hflat⟩ := concatOpt_map (printListEntry cfg.quotedUTF8 none) ds bytes hp
+  have hentry : ∀ d, printListEntry cfg.quotedUTF8 none d = printListLine cfg.quotedUTF8 d := by
+    intro d
+    unfold printListEntry
+    cases h : printListLine cfg.quotedUTF8 d <;> simp [h, bind, Option.bind]
+  have hall : AllRead ls (ds.map fun d => Event.list (RespSpec.canonList none d)) :=
+    AllRead.of_get (printListEntry cfg.quotedUTF8 none) _ ds ls hl hget
+      (fun d hd l hpl => list_line cfg.quotedUTF8 d l (hwf d hd) (hlen d hd) (by rw [← hentry]; exact hpl))
+  have hlines := AllRead.append hall (AllRead.single (done_line tag text ht hx))
+  have e : bytes ++ (tag ++ asc " OK " ++ text ++ CRLFb) = (ls ++ [tag ++ asc " OK " ++ text ++ CRLFb]).flatten := by
+    simp [hflat]
+  rw [e, parseAll_lines _ _ hlines]
+  simp only [Option.map_some]
+  congr 1
+  have hm : (ds.map fun d => Event.list (RespSpec.canonList none d)) = (ds.map (RespSpec.canonList none)).map Event.list := by
+    simp [List.map_map, Function.comp_def]
+  rw [hm]
+  exact list_deliver_plain _ tag (asc "OK") Code.none
+
+/-- LIST with RETURN (STATUS): a LIST event followed by the STATUS event of the same mailbox is delivered
+    as one entry carrying that status; an entry without STATUS is delivered when the next entry or the
+    completion arrives -/
+theorem list_status_routing (ds : List (ListData × Option StatusData)) (tag typ : Str) (code : Code)
+    (hs : ∀ p ∈ ds, p.1.status = none) (hm : ∀ p ∈ ds, ∀ s, p.2 = some s → s.mailbox = p.1.mailbox) :
+    deliverList true none (ds.flatMap list_entryEvents ++ [Event.done tag typ code]) = ds.map list_entryData :=
+  list_deliver_status ds tag typ code hs hm
+
+/-! ## STATUS -/
+
+/-- STATUS: every subset of requested items, APPENDLIMIT NIL included; the data is attributed to the
+    command that named the mailbox (INBOX in any case) -/
+theorem resp_fidelity_status (utf8 : Bool) (o : StatusOpts) (d : StatusData) (bytes tag text : Str)
+    (ht : IsTag tag) (hx : IsText text)
+    (hwf : RespSpec.wfStatus o d = true) (hr : StatusInRange d) (hp : printStatus utf8 o d = some bytes) :
+    (parseAll (bytes ++ (tag ++ asc " OK " ++ text ++ CRLFb))).map (deliverStatus sameMailbox d.mailbox) =
+      some (RespSpec.canonStatus o d) := by
+  have hlines : AllRead [bytes, tag ++ asc " OK " ++ text ++ CRLFb]
+      [Event.status (RespSpec.canonStatus o d), Event.done tag (asc "OK") Code.none] :=
+    AllRead.cons (status_line utf8 o d bytes hwf hr hp) (AllRead.single (done_line tag text ht hx))
+  have e : bytes ++ (tag ++ asc " OK " ++ text ++ CRLFb) = [bytes, tag ++ asc " OK " ++ text ++ CRLFb].flatten := by simp
+  rw [e, parseAll_lines _ _ hlines]
+  simp only [Option.map_some, status_deliver_self]
+
+/-! ## SELECT -/
+
+theorem resp_fidelity_select (cfg : Cfg) (mailbox : Str) (d : SelectData) (bytes tag : Str) (ro : Bool) (ht : IsTag tag)
+    (hwf : RespSpec.wfSelect mailbox d = true)
+    (hrange : d.num < 4294967296 ∧ d.uidNext < 4294967296 ∧ d.uidValidity < 4294967296 ∧
+      (∀ l, d.list = some l → l.mailbox.length < 4294967296 ∧ l.oldName.length < 4294967296))
+    (hp : printSelect cfg d = some bytes) :
+    (parseAll (bytes ++ (tag ++ asc " OK " ++ asc (if ro then "[READ-ONLY] EXAMINE completed" else "[READ-WRITE] SELECT completed") ++ CRLFb))).map
+      (deliverSelect sameMailbox mailbox) = some (RespSpec.canonSelect d) :=
+  select_fidelity cfg mailbox d bytes tag ro ht hwf hrange hp
+
+/-! ## SEARCH / ESEARCH -/
+
+/-- SEARCH form (no RETURN option, IMAP4rev2 not enabled): only the numbers travel; the delivered set has
+    exactly the members of the supplied one; UID/Min/Max/Count are not delivered (documented on imap.SearchData) -/
+theorem resp_fidelity_search (cfg : Cfg) (uidMode : Bool) (stag : Str) (o : Option SearchOpts) (d : SearchData) (kind : Bool)
+    (set : NumSet.Set) (ns : List Nat) (tag text : Str) (ht : IsTag tag) (hx : IsText text)
+    (hes : isESearch cfg o = false) (hall : d.all = some (kind, set)) (hc : NumSet.Canon set) (hn : NumSet.nums set = some ns) :
+    ∃ b, printSearch cfg stag o d = some b ∧
+      (parseAll (b ++ (tag ++ asc " OK " ++ text ++ CRLFb))).map (deliverSearch uidMode) =
+        some { all := some (uidMode, ns.foldl NumSet.addNum []), uid := false, min := 0, max := 0, count := 0 } ∧
+      ∀ q, NumSet.contains (ns.foldl NumSet.addNum []) q = NumSet.contains set q := by
+  obtain ⟨b, hb, hread⟩ := search_line_print cfg stag o d kind set ns hes hall hc hn
+  refine ⟨b, hb, ?_, search_same_set set ns hc hn⟩
+  have hlines : AllRead [b, tag ++ asc " OK " ++ text ++ CRLFb] [Event.search ns, Event.done tag (asc "OK") Code.none] :=
+    AllRead.cons hread (AllRead.single (done_line tag text ht hx))
+  have e : b ++ (tag ++ asc " OK " ++ text ++ CRLFb) = [b, tag ++ asc " OK " ++ text ++ CRLFb].flatten := by simp
+  rw [e, parseAll_lines _ _ hlines]
+  simp only [Option.map_some, search_deliver_search]
+
+/-- ESEARCH form: the requested items are delivered (an empty result: no ALL, hence no set) -/
+theorem resp_fidelity_esearch (cfg : Cfg) (uidMode : Bool) (stag : Str) (o : Option SearchOpts) (d : SearchData) (kind : Bool)
+    (set : NumSet.Set) (tag text : Str) (hst : IsTag stag) (ht : IsTag tag) (hx : IsText text)
+    (hes : isESearch cfg o = true) (hall : d.all = some (kind, set)) (hc : NumSet.Canon set) (hd : NumSet.dynamic set = false)
+    (hmin : d.min < 4294967296) (hmax : d.max < 4294967296) (hcount : d.count < 4294967296) :
+    ∃ b, printSearch cfg stag o d = some b ∧
+      (parseAll (b ++ (tag ++ asc " OK " ++ text ++ CRLFb))).map (deliverSearch uidMode) =
+        some { all := if (searchOpts o).all && !set.isEmpty then some (d.uid, set) else none, uid := d.uid,
+               min := if (searchOpts o).min then d.min else 0, max := if (searchOpts o).max then d.max else 0,
+               count := if (searchOpts o).count then d.count else 0 } := by
+  obtain ⟨b, hb, hread⟩ := esearch_line cfg stag o d kind set hes hall hst hc hd hmin hmax hcount
+  refine ⟨b, hb, ?_⟩
+  have hlines := AllRead.cons hread (AllRead.single (done_line tag text ht hx))
+  have e : b ++ (tag ++ asc " OK " ++ text ++ CRLFb) = [b, tag ++ asc " OK " ++ text ++ CRLFb].flatten := by simp
+  rw [e, parseAll_lines _ _ hlines]
+  simp only [Option.map_some, search_deliver_esearch]
+
+/-! ## APPENDUID, COPYUID, MOVE -/
+
+theorem resp_fidelity_append_some (tag text : Str) (ht : IsTag tag) (hx : IsText text) (d : AppendData)
+    (hv : d.uidValidity < 4294967296) (hu : d.uid < 4294967296) :
+    (parseAll (tag ++ asc " OK " ++ appendCodeText (some d) ++ text ++ CRLFb)).map deliverAppend =
+      some (RespSpec.canonAppend (some d)) :=
+  append_some_fidelity tag text ht hx d hv hu
+
+theorem resp_fidelity_append_none (tag text : Str) (ht : IsTag tag) (hx : IsText text) :
+    (parseAll (tag ++ asc " OK " ++ appendCodeText none ++ text ++ CRLFb)).map deliverAppend =
+      some (RespSpec.canonAppend none) :=
+  append_none_fidelity tag text ht hx
+
+theorem resp_fidelity_copy_some (tag text : Str) (ht : IsTag tag) (hx : IsText text) (d : CopyData)
+    (hv : d.uidValidity < 4294967296)
+    (hs : NumSet.Canon d.src) (hsne : d.src ≠ []) (hsd : NumSet.dynamic d.src = false)
+    (hd : NumSet.Canon d.dst) (hdne : d.dst ≠ []) (hdd : NumSet.dynamic d.dst = false)
+    (code : Str) (hc : copyCodeText (some d) = some code) :
+    (parseAll (tag ++ asc " OK " ++ code ++ text ++ CRLFb)).map deliverCopy = some (RespSpec.canonCopy (some d)) :=
+  copy_some_fidelity tag text ht hx d hv hs hsne hsd hd hdne hdd code hc
+
+theorem resp_fidelity_copy_none (tag text : Str) (ht : IsTag tag) (hx : IsText text) (code : Str)
+    (hc : copyCodeText none = some code) :
+    (parseAll (tag ++ asc " OK " ++ code ++ text ++ CRLFb)).map deliverCopy = some (RespSpec.canonCopy none) :=
+  copy_none_fidelity tag text ht hx code hc
+
+/-- MOVE: the COPYUID data of the untagged OK and the expunged sequence numbers, in the order sent -/
+theorem resp_fidelity_move_some (d : CopyData) (ex : List Nat) (tag text : Str) (ht : IsTag tag) (hx : IsText text)
+    (hv : d.uidValidity < 4294967296)
+    (hs : NumSet.Canon d.src) (hsne : d.src ≠ []) (hsd : NumSet.dynamic d.src = false)
+    (hd : NumSet.Canon d.dst) (hdne : d.dst ≠ []) (hdd : NumSet.dynamic d.dst = false)
+    (hex : ∀ n ∈ ex, n < 4294967296) (bytes : Str) (hp : printMove (some d) ex = some bytes) :
+    (parseAll (bytes ++ (tag ++ asc " OK " ++ text ++ CRLFb))).map deliverMove = some (RespSpec.canonCopy (some d), ex) :=
+  move_some_fidelity d ex tag text ht hx hv hs hsne hsd hd hdne hdd hex bytes hp
+
+theorem resp_fidelity_move_none (ex : List Nat) (tag text : Str) (ht : IsTag tag) (hx : IsText text)
+    (hex : ∀ n ∈ ex, n < 4294967296) (bytes : Str) (hp : printMove none ex = some bytes) :
+    (parseAll (bytes ++ (tag ++ asc " OK " ++ text ++ CRLFb))).map deliverMove = some (RespSpec.canonCopy none, ex) :=
+  move_none_fidelity ex tag text ht hx hex bytes hp
+
+/-! ## NAMESPACE -/
+
+theorem resp_fidelity_namespace (cfg : Cfg) (d : NamespaceData) (bytes tag text : Str) (ht : IsTag tag) (hx : IsText text)
+    (hwf : RespSpec.wfNamespace d = true)
+    (hlen : ∀ l, (d.personal = some l ∨ d.other = some l ∨ d.shared = some l) → ∀ x ∈ l, x.prefix_.length < 9223372036854775808)
+    (hp : printNamespace cfg d = some bytes) :
+    (parseAll (bytes ++ (tag ++ asc " OK " ++ text ++ CRLFb))).map deliverNamespace = some (RespSpec.canonNamespace d) :=
+  namespace_fidelity cfg d bytes tag text ht hx hwf hlen hp
+
+/-! ## EXPUNGE -/
 
 /-- EXPUNGE: the sequence numbers the backend wrote through `ExpungeWriter.WriteExpunge` are what
     `ExpungeCommand.Collect` returns, in order (bytes of the whole command: the untagged lines and the
@@ -70,5 +324,22 @@ theorem resp_fidelity_expunge (l : List Nat) (tag text : Str) (ht : IsTag tag) (
   simp; omega
 
 example : RespSpec.wfExpunge [3, 1, 4294967295] = true := by decide
+
+/-! ## repaired defects -/
+
+/-- after the repair the client reads `BINARY.SIZE[1] 42` -/
+theorem binsize_repaired :
+    (readItem (asc "BINARY.SIZE[1] 42)")).map (fun x => x.2) = some [41] := by
+  decide
+
+/-- before the repair the BINARY.SIZE branch met the opening bracket where it expected a number or `]` -/
+theorem binsize_legacy_counterexample :
+    (Legacy.readBinarySize (asc "[1] 42)")).map (fun x => x.2) = none := by
+  decide
+
+theorem inbox_case_repaired : sameMailbox (asc "inbox") (asc "INBOX") = true := by decide
+
+/-- before the repair `Status("inbox")` / `Select("inbox")` did not recognise the server's answer about INBOX -/
+theorem inbox_case_legacy_counterexample : Legacy.sameMailbox (asc "inbox") (asc "INBOX") = false := by decide
 
 end GoImap.C03
